@@ -77,6 +77,8 @@ def make_item(layer, item):
     rc, rt, cv, c, v = item
     if layer == "set" or rc == "-":
         return Item((rc, rt, cv, c), v)
+    if v == 3:  # the same record as spelling 1, held in its generic (RFC 3597) form
+        return make_item(layer, (rc, rt, cv, c, 1)).to_generic()
     return dns.rdata.from_text(dns.rdataclass.from_text(rc), dns.rdatatype.from_text(rt), record_text(rt, cv, c, v))
 
 
@@ -271,7 +273,7 @@ def wire_of(fields):
 def build_record(rec):
     """rec = {cls, ty, f: fields, mode}: mode "wire" = parsed from the wire form of the
     fields, "text" = that record printed and parsed again, "rel" = printed and parsed
-    with names relativized to ORIGIN."""
+    with names relativized to ORIGIN, "generic" = the RFC 3597 generic form (to_generic())."""
     rdclass = dns.rdataclass.from_text(rec["cls"])
     rdtype = dns.rdatatype.from_text(rec["ty"])
     wire = wire_of(rec["f"])
@@ -280,6 +282,8 @@ def build_record(rec):
         rd = dns.rdata.from_text(rdclass, rdtype, rd.to_text())
     elif rec["mode"] == "rel":
         rd = dns.rdata.from_text(rdclass, rdtype, rd.to_text(), origin=ORIGIN, relativize=True)
+    elif rec["mode"] == "generic":
+        rd = rd.to_generic()
     return rd
 
 
